@@ -157,6 +157,8 @@ func secchanFamily(a *Args) error {
 			fr := mat[wire[altAt].Sess+"/"+wire[altAt].Dir].wire[wire[altAt].Idx-1]
 			nb := fieldBits(fr, wire[altAt].Alt)
 			switch {
+			case wire[altAt].Alt == "len":
+				variants = 16 // every single-bit flip of the length field (one of them may zero it)
 			case thorough && len(wire) <= 2 && nb <= 128:
 				variants = nb // every single-bit flip of that field
 			case thorough:
@@ -178,10 +180,22 @@ func secchanFamily(a *Args) error {
 						if variants <= 6 {
 							bit = rng.Intn(1 << 20)
 						}
+					} else if it.Alt == "len" {
+						// a second altered length: clear the highest set bit of the 16-bit length (zeroes powers of two)
+						n := len(fr) - 18
+						for hb := 15; hb >= 0; hb-- {
+							if n&(1<<uint(hb)) != 0 {
+								bit = hb
+								break
+							}
+						}
 					}
 					fr = flipField(fr, it.Alt, bit)
 				case "cut":
 					fr = fr[:1+rng.Intn(len(fr)-1)]
+				case "zero":
+					fr = make([]byte, 18) // length 0, forged tag
+					rng.Read(fr[2:])
 				}
 				stream = append(stream, fr...)
 				if it.Alt == "cut" {
